@@ -3,6 +3,8 @@
 package cl
 
 import (
+	"math/big"
+
 	"github.com/ohler55/slip"
 )
 
@@ -17,9 +19,9 @@ func init() {
 			Name: "lcm",
 			Args: []*slip.DocArg{
 				{Name: "&rest"},
-				{Name: "integers", Type: "fixnum"},
+				{Name: "integers", Type: "integer"},
 			},
-			Return: "fixnum",
+			Return: "integer",
 			Text:   `__lcm__ returns the least common multiple of _integers_.`,
 			Examples: []string{
 				"(lcm) => 1",
@@ -36,23 +38,16 @@ type Lcm struct {
 
 // Call the function with the arguments provided.
 func (f *Lcm) Call(s *slip.Scope, args slip.List, depth int) slip.Object {
-	z := slip.Fixnum(1)
-	for i, a := range args {
-		num, ok := a.(slip.Fixnum)
-		if !ok {
-			slip.TypePanic(s, depth, "integers", a, "fixnum")
+	z := big.NewInt(1)
+	for _, a := range args {
+		num := integerArg(s, depth, a)
+		if num.Sign() == 0 {
+			return slip.Fixnum(0)
 		}
-		switch {
-		case num == 0:
-			return num
-		case num < 0:
-			num = -num
-		}
-		if i == 0 { // first one
-			z = num
-		} else {
-			z = z * num / gcd(z, num)
-		}
+		var g big.Int
+		_ = g.GCD(nil, nil, z, num)
+		_ = z.Mul(z.Quo(z, &g), num)
+		_ = z.Abs(z)
 	}
-	return z
+	return reduceInteger(z)
 }
